@@ -123,7 +123,7 @@ Theorem no_missed_edge s a :
 Proof.
   intros R (Qa & Qs & Qg & Qp & Qc) Hs Hav.
   pose proof (inv_reach cap peer selof fixB fixD calm peer_inv s R) as I.
-  destruct (ahome (A s a)) as [|k|f|g|k|] eqn:Hh.
+  destruct (ahome (A s a)) as [|k|f|g|k|b|k|] eqn:Hh.
   - apply (H1 _ _ _ _ I) in Hs. congruence.
   - destruct (H2 _ _ _ _ I _ _ Hh) as (L & _ & _ & [E|E]); rewrite (Qs _ L) in E; discriminate.
   - destruct (H4 _ _ _ _ I _ _ Hh) as [Hc Hf].
@@ -134,6 +134,8 @@ Proof.
     + rewrite (Qs _ L) in X. destruct X as [X|X]; discriminate.
   - destruct (H6 _ _ _ _ I _ _ Hh) as [f X]. rewrite Qg in X. discriminate.
   - destruct (H8 _ _ _ _ I _ _ Hh) as (L & X); rewrite (Qs _ L) in X; discriminate.
+  - destruct (H11 _ _ _ _ I _ _ Hh) as [f X]. rewrite Qc in X. discriminate.
+  - destruct (H13 _ _ _ _ I _ _ Hh) as (L & f & X); rewrite (Qs _ L) in X; discriminate.
   - apply (H10 _ _ _ _ I) in Hh. destruct (Qa a) as [_ W]. congruence.
 Qed.
 
@@ -156,6 +158,16 @@ Proof.
   - intros g f. apply (H7 _ _ _ _ I).
   - intros k. apply (H9 _ _ _ _ I).
   - intros k L E X. rewrite <- E. apply (H3 _ _ _ _ I); assumption.
+Qed.
+
+(* ... including the two places a cancel holds it between taking the coroutine and scheduling it *)
+Theorem wake_token_in_cancel s c :
+  Reach s ->
+  (forall a f, Cn s a = Cn3 f c -> ahome (A s c) = HCan a) /\
+  (forall k f, k < nexts s -> spc_ (Sb s k) = SCan4 f c -> ahome (A s c) = HKCan k).
+Proof.
+  intros R. pose proof (inv_reach cap peer selof fixB fixD calm peer_inv s R) as I.
+  split; [intros a f; apply (H12 _ _ _ _ I) | intros k f; apply (H14 _ _ _ _ I)].
 Qed.
 
 Corollary resumed_only_when_suspended s a : Reach s -> aawake (A s a) = true -> apc (A s a) = Susp /\ forall f, co s f <> Some a.
